@@ -5,6 +5,7 @@ import (
 	"context"
 	"fmt"
 	"io"
+	"os"
 	"os/exec"
 	"sort"
 	"strconv"
@@ -71,6 +72,14 @@ func (st *SolverStats) add(kind string, r Result, backend string, d time.Duratio
 	st.Queries[kind+"/"+r.String()]++
 	st.Seconds[backend] += d.Seconds()
 	st.mu.Unlock()
+}
+
+var dbgLog *os.File
+
+func init() {
+	if p := os.Getenv("SYMGO_SMTLOG"); p != "" {
+		dbgLog, _ = os.Create(p)
+	}
 }
 
 // Solver is a persistent incremental solver process plus a mirror of its
@@ -144,6 +153,9 @@ func (s *Solver) Close() {
 func (s *Solver) send(txt string) {
 	if s.dead {
 		return
+	}
+	if dbgLog != nil {
+		dbgLog.WriteString(txt)
 	}
 	if _, err := io.WriteString(s.in, txt); err != nil {
 		s.dead = true
@@ -294,6 +306,9 @@ func (s *Solver) readLine(d time.Duration) (string, bool) {
 		if r.err != nil {
 			s.dead = true
 			return "", false
+		}
+		if dbgLog != nil {
+			dbgLog.WriteString("; <- " + strings.TrimSpace(r.s) + "\n")
 		}
 		return strings.TrimSpace(r.s), true
 	case <-time.After(d):
